@@ -246,15 +246,24 @@ def run_case(ctx, case):
             script.append(("unsub", labels[id(ob)])); ctx.count("unsubscribes"); disturb += 1
         elif ev < 0.24:
             # built-in observers mixed in (subscribed silently by their constructors)
-            kind = rng.choice(["unsched", "isready", "duration"])
+            kind = rng.choice(["unsched", "isready", "duration", "remaining", "is_completed_jobs"])
             try:
                 if kind == "unsched":
                     ob = UnscheduledOperationsObserver(d)
                 elif kind == "isready":
                     ob = IsReadyObserver(d)
+                elif kind == "remaining":
+                    from job_shop_lib.dispatching.feature_observers import RemainingOperationsObserver
+                    ob = RemainingOperationsObserver(d)
+                elif kind == "is_completed_jobs":
+                    from job_shop_lib.dispatching.feature_observers import IsCompletedObserver
+                    ob = IsCompletedObserver(d, feature_types=[FeatureType.JOBS])
                 else:
                     ob = DurationObserver(d, feature_types=[FeatureType.JOBS])
-                subs.append(ob); labels[id(ob)] = type(ob).__name__
+                # the constructor may have brought helper observers along (subscribed before it)
+                for x in d.subscribers:
+                    if all(x is not y for y in subs):
+                        subs.append(x); labels[id(x)] = type(x).__name__
                 script.append(("builtin", kind))
             except ValidationError:
                 script.append(("builtin_rejected", kind))
@@ -289,6 +298,23 @@ def run_case(ctx, case):
             if hist is not None and hist in subs and hist.history:
                 ctx.violation("c10_history_observer_not_reset", {"records": len(hist.history), "script": script})
             script.append(("reset",)); ctx.count("resets"); disturb += 1
+            # a reset notifies; it drops nobody.  A built-in observer may re-create a helper observer
+            # the user had unsubscribed - but never a second one of a kind that is still subscribed
+            # (create-or-get returns the subscribed observer that matches)
+            for x in d.subscribers:
+                if all(x is not y for y in subs):
+                    def covers(y, x=x):
+                        fy, fx = getattr(y, "features", None), getattr(x, "features", None)
+                        return type(y) is type(x) and (
+                            not isinstance(fy, dict) or not isinstance(fx, dict) or set(fx) <= set(fy))
+                    if any(covers(y) for y in subs):
+                        ctx.violation("c10_reset_subscribed_a_duplicate_helper_observer",
+                                      {"type": type(x).__name__, "script": script,
+                                       "subscribers": [type(y).__name__ for y in d.subscribers]})
+                        return
+                    subs.append(x); labels[id(x)] = type(x).__name__
+            if not check_subscribers("after reset"):
+                return
         elif ev < 0.40:
             # rejected request: nobody may be notified
             n0 = len(log)
